@@ -98,6 +98,62 @@ def positions(doc, result):
     return [order.get(id(x), -1) for x in result]
 
 
+EDIT_ATTRS = ('lang', 'content', 'http-equiv', 'dir', 'checked', 'disabled', 'type', 'name', 'value', 'min', 'readonly')
+EDIT_VALUES = ('en', 'fr-CA', '', 'content-language', 'rtl', 'auto', 'radio', 'submit', 'g1', '5', None)
+
+
+def apply_edit(doc, call):
+    """The program changes the document between two queries (an attribute is set or removed, an element is taken out).
+    Elements are addressed by position, so the same edit can be applied to a pristine copy."""
+    els = doc.all_elements()
+    if not els:
+        return
+    el = els[call['target'] % len(els)]
+    if call['attr'] == '#extract':
+        if el.parent is not None and el is not doc.top() and len(els) > 2:
+            el.extract()
+        return
+    if call['attr'] == '#add-meta':
+        head = next((e for e in els if e.name == 'head'), None)
+        if head is not None:
+            soup = doc.top() if isinstance(doc.top(), bs4.BeautifulSoup) else bs4.BeautifulSoup('', 'html.parser')
+            head.append(soup.new_tag('meta', attrs={'http-equiv': 'content-language', 'content': call['value'] or 'de'}))
+        return
+    if call['value'] is None:
+        el.attrs.pop(call['attr'], None)
+    else:
+        el.attrs[call['attr']] = call['value']
+
+
+def relevant_edits(doc):
+    """Edits that change what the memoising pseudo-classes look at (pragma, languages, radio groups, default buttons)."""
+    out = []
+    for idx, el in enumerate(doc.all_elements()):
+        n = el.name
+        if n == 'meta':
+            out += [(idx, 'content', 'en'), (idx, 'content', 'fr-CA'), (idx, 'content', ''), (idx, 'http-equiv', None),
+                    (idx, 'http-equiv', 'content-language'), (idx, '#extract', None)]
+        elif n == 'input':
+            out += [(idx, 'checked', ''), (idx, 'checked', None), (idx, 'name', 'g1'), (idx, 'name', 'g2'), (idx, 'type', 'radio'),
+                    (idx, 'type', 'submit'), (idx, 'type', 'checkbox'), (idx, 'disabled', ''), (idx, '#extract', None)]
+        elif n == 'button':
+            out += [(idx, 'type', 'submit'), (idx, 'type', 'button'), (idx, 'disabled', ''), (idx, '#extract', None)]
+        elif n in ('html', 'body', 'form', 'p', 'div', 'fieldset'):
+            out += [(idx, 'lang', 'en'), (idx, 'lang', 'fr'), (idx, 'lang', None), (idx, 'dir', 'rtl'), (idx, 'dir', None)]
+        elif n == 'head':
+            out += [(idx, '#add-meta', 'en'), (idx, '#add-meta', 'fr')]
+    return out
+
+
+def rebuild(recipe, odd, history):
+    """A pristine materialisation brought to the current state of the document: all edits so far, no queries."""
+    doc = build(recipe, odd)
+    for h in history:
+        if h['call'] == 'edit':
+            apply_edit(doc, h)
+    return doc
+
+
 def do_call(doc, call, NS=None):
     """Run one recorded call on a materialised doc; returns a position-encoded result."""
     NS = NS_DEFAULT if NS is None else NS
@@ -133,6 +189,11 @@ def check_step(recipe, doc, snap, history, fails, NS=None, odd=None):
     """Invariants after the last call of `history`."""
     NS = NS_DEFAULT if NS is None else NS
     call = history[-1]
+    if call['call'] == 'edit':
+        apply_edit(doc, call)
+        snap.clear()
+        snap.update(snapshot(doc))      # the edit is the program's doing; from here on this is the tree to preserve
+        return {'n': 0, 'nonempty': False}
     try:
         res, target = do_call(doc, call, NS)
     except Exception as e:  # noqa: BLE001
@@ -184,7 +245,7 @@ def check_step(recipe, doc, snap, history, fails, NS=None, odd=None):
             fails.append(('raises-' + type(e).__name__, f'filter({text!r}, detached roots): {e!r:.150}'))
     # (2) pristine copy, purged cache
     sv.purge()
-    fresh = build(recipe, odd)
+    fresh = rebuild(recipe, odd, history[:-1])
     try:
         res2, _ = do_call(fresh, call, NS)
     except Exception as e:  # noqa: BLE001
@@ -261,6 +322,7 @@ def make_machine(col, tier, t_end):
             self.snap = snapshot(self.doc)
             self.history = []
             self.memo_queries = 0
+            self.edits = 0
             self.nonempty = False
             self.extra = [S.render_list(FG.gen_list(ch, FGCFG, max_items=2)) for _ in range(4)]
             col.classify('doc:' + self.flavour)
@@ -285,6 +347,23 @@ def make_machine(col, tier, t_end):
                 self.nonempty = self.nonempty or info['nonempty']
             for b, d in fails[:2]:
                 col.fail(b, {'tree': self.recipe, 'history': list(self.history), 'ns': self.ns, 'odd': self.odd}, d)
+
+        @rule(tgt=st.integers(0, 60), ai=st.integers(0, len(EDIT_ATTRS)), vi=st.integers(0, len(EDIT_VALUES) - 1))
+        def edit(self, tgt, ai, vi):
+            # the program edits the document between queries; later answers must be those of a fresh look at the edited tree
+            if self.odd:
+                return
+            call = {'call': 'edit', 'sel': '', 'target': tgt, 'attr': EDIT_ATTRS[ai] if ai < len(EDIT_ATTRS) else '#extract',
+                    'value': EDIT_VALUES[vi]}
+            rel = relevant_edits(self.doc) if vi % 4 else []
+            if rel:
+                t, a, v = rel[(tgt * 7 + ai) % len(rel)]
+                call.update(target=t, attr=a, value=v)
+            self.history.append(call)
+            fails = []
+            check_step(self.recipe, self.doc, self.snap, self.history, fails, self.ns, self.odd)
+            self.edits += 1
+            col.classify('call:edit')
 
         def teardown(self):
             if self.doc is not None and self.memo_queries >= 2 and self.nonempty:
